@@ -294,7 +294,7 @@ func (r *replayer) waitArrival(c int) (arrival, *Event) {
 			panic("arrival of a caller that was not released")
 		case e := <-r.done[c]:
 			return arrival{}, &e
-		case <-time.After(10 * time.Second):
+		case <-time.After(60 * time.Second):
 			panic(fmt.Sprintf("caller %d neither arrived at a gate nor finished", c))
 		}
 	}
